@@ -57,6 +57,7 @@ fn main() {
         "hs-wire" => handshake::run_wire(rest),
         "pid-run" => pid::run(rest),
         "rpc-run" => rpc::run(rest),
+        "rpc-free" => rpc::run_free(rest),
         "inbound-run" => inbound::run(rest),
         "localproc-run" => localproc::run(rest),
         "conn-send" => conn::run_send(rest),
